@@ -657,7 +657,7 @@ std::string dump_registry(const Registry& r) {
     for (int c = 0; c < r.n; ++c) {
         os << (c ? "," : "") << "{\"c\":" << c << ",\"bases\":" << jlist(r.bases[c])
            << ",\"abstract\":" << (r.abstract_[c] ? "true" : "false") << ",\"ids\":[";
-        for (size_t a = 0; a < r.ids[c].size(); ++a)
+        for (size_t a = 0; c < (int)r.ids.size() && a < r.ids[c].size(); ++a)
             os << (a ? "," : "") << "\"" << std::hex << "0x" << r.ids[c][a] << std::dec << "\"";
         os << "]}";
     }
